@@ -17,16 +17,20 @@ def TKind.matches : TKind → Value → Bool
   | .other, _ => true
   | _, _ => false
 
--- every kind annotation in the typed expression agrees with the value its target evaluates to (if it evaluates)
+-- every kind annotation in the typed expression agrees with the value its target evaluates to (if it evaluates);
+-- only along evaluated positions: the `then` branch when the test is true, the right operand of `&&` when the left is
+-- true, … (an unevaluated operand is typed under capabilities that need not hold at run time)
 mutual
 def Kinds (req : Request) (es : Entities) (sl : SlotEnv) : TExpr → Prop
   | .lit _ => True
   | .var _ => True
   | .slot _ => True
   | .unknown _ _ => True
-  | .ite c t e => Kinds req es sl c ∧ Kinds req es sl t ∧ Kinds req es sl e
-  | .and a b => Kinds req es sl a ∧ Kinds req es sl b
-  | .or a b => Kinds req es sl a ∧ Kinds req es sl b
+  | .ite c t e =>
+    Kinds req es sl c ∧ (evaluate req es sl c.erase = .ok (.prim (.bool true)) → Kinds req es sl t) ∧
+      (evaluate req es sl c.erase = .ok (.prim (.bool false)) → Kinds req es sl e)
+  | .and a b => Kinds req es sl a ∧ (evaluate req es sl a.erase = .ok (.prim (.bool true)) → Kinds req es sl b)
+  | .or a b => Kinds req es sl a ∧ (evaluate req es sl a.erase = .ok (.prim (.bool false)) → Kinds req es sl b)
   | .unaryApp _ a => Kinds req es sl a
   | .binaryApp _ a b => Kinds req es sl a ∧ Kinds req es sl b
   | .call _ args => KindsList req es sl args
@@ -43,6 +47,11 @@ def KindsKVs (req : Request) (es : Entities) (sl : SlotEnv) : List (String × TE
   | [] => True
   | (_, e) :: xs => Kinds req es sl e ∧ KindsKVs req es sl xs
 end
+
+theorem asBool_ok {v : Value} {b : Bool} (h : v.asBool = .ok b) : v = .prim (.bool b) := by
+  cases v with
+  | prim p => cases p <;> simp [Value.asBool] at h; subst h; rfl
+  | _ => simp [Value.asBool] at h
 
 /-- projection along an access path (head = first field taken); a non-record value is its own projection -/
 def projL : Value → List String → Value
